@@ -403,6 +403,43 @@ func (m *Monitors) onPropose(tok string, out string, local bool) {
 
 func (m *Monitors) onReadIndex(ctx string) { m.reads[ctx] = m.maxReported }
 
+// onAccepted (C16): node n accepted a proposal of k entries. With MaxUncommittedEntriesSize set, a
+// proposal that puts payload into the log is accepted only while the payload the leader has
+// proposed in its own term and not yet seen committed stays within the limit (the proposal that
+// starts from zero may cross it: the "plus one"): the uncommitted payload of the leader's own term
+// BEFORE this proposal must not exceed the limit. What counts is what entered the log: a refused
+// configuration change enters as an empty entry and is always accepted.
+func (m *Monitors) onAccepted(n *Node, k int) {
+	lim := n.cfg.MaxUncommitted
+	if lim == 0 || lim == math.MaxUint64 || k <= 0 || !n.alive || n.rn == nil {
+		return
+	}
+	d := n.rn.VerifState()
+	if d.State != raft.StateLeader {
+		return
+	}
+	v := n.logView(&d)
+	if len(v.ents) < k {
+		return
+	}
+	var tail, appended uint64
+	for i, e := range v.ents {
+		if v.first+uint64(i) > d.Committed && e.GetTerm() == d.Term {
+			tail += uint64(len(e.GetData()))
+			if i >= len(v.ents)-k {
+				appended += uint64(len(e.GetData()))
+			}
+		}
+	}
+	if appended == 0 {
+		return
+	}
+	m.hit("C16.proposal-accepted-under-uncommitted-limit")
+	if before := tail - appended; before > lim {
+		m.report("C16", "", "leader %d accepted a non-empty proposal although %d bytes of its own uncommitted proposals were already in its log (MaxUncommittedEntriesSize %d)", n.id, before, lim)
+	}
+}
+
 // onBatch: a multi-entry proposal was stepped into node n. If it was accepted at a leader, the
 // entries must appear in its log in order, with type and payload preserved, except that a
 // configuration change may be replaced by an empty normal entry (C20).
